@@ -555,30 +555,17 @@ pub fn rx_float_range(
 }
 
 pub(super) fn normalize_integer_bounds(num: &NumberSchema) -> (Option<i64>, Option<i64>) {
+    // the step past an exclusive integral bound is taken in i64: above 2^53, `x + 1.0 == x` in f64
     let minimum = match num.get_minimum() {
-        (Some(min_val), true) => {
-            if min_val.fract() != 0.0 {
-                Some(min_val.ceil())
-            } else {
-                Some(min_val + 1.0)
-            }
-        }
-        (Some(min_val), false) => Some(min_val.ceil()),
+        (Some(min_val), true) if min_val.fract() == 0.0 => Some((min_val as i64).saturating_add(1)),
+        (Some(min_val), _) => Some(min_val.ceil() as i64),
         _ => None,
-    }
-    .map(|val| val as i64);
+    };
     let maximum = match num.get_maximum() {
-        (Some(max_val), true) => {
-            if max_val.fract() != 0.0 {
-                Some(max_val.floor())
-            } else {
-                Some(max_val - 1.0)
-            }
-        }
-        (Some(max_val), false) => Some(max_val.floor()),
+        (Some(max_val), true) if max_val.fract() == 0.0 => Some((max_val as i64).saturating_sub(1)),
+        (Some(max_val), _) => Some(max_val.floor() as i64),
         _ => None,
-    }
-    .map(|val| val as i64);
+    };
     (minimum, maximum)
 }
 
